@@ -346,3 +346,25 @@ Definition partition_unique__metadata_buffer_setitem (k : val) (m : md) (p : pu_
 Definition partition_unique__buffer_contains (k : val) (p : pu_st) : bool := negb (is_none (assoc_get k (pu_buf p))).
 Definition partition_unique__buffer_values (p : pu_st) : list val := map snd (pu_buf p).
 Definition partition_unique__metadata_buffer_values (p : pu_st) : list md := map snd (pu_mbuf p).
+
+(* ---- zip: self.buffers maps every upstream to a deque of (value, metadata); the model keeps them by position in
+        st_ports.  maxsize / condition (backpressure) are not part of the synchronous model (Async/ZipBP.v). ---------- *)
+Section MapM.
+Context {PS : Type}.
+(* [f(v) for v in l] where f reads the state or may raise *)
+Fixpoint mapM {A B} (f : A -> M PS B) (l : list A) : M PS (list B) :=
+  match l with
+  | [] => ret []
+  | a :: t => bind (f a) (fun b => bind (mapM f t) (fun r => ret (b :: r)))
+  end.
+End MapM.
+Definition zip_upstreams (s : nstate) : list nat := seq 0 (length (st_ports s)).
+Definition zip_buffers_getitem (i : nat) (s : nstate) : list (val * md) := nth i (st_ports s) [].
+Definition zip_buffers_item_append (i : nat) (e : val * md) (s : nstate) : nstate :=
+  set_ports s (set_nth i (nth i (st_ports s) [] ++ [e]) (st_ports s)).
+Definition zip_buffers_values (s : nstate) : list (list (val * md)) := st_ports s.
+(* for buf in self.buffers.values(): buf.popleft()   -- popping an empty deque raises *)
+Definition zip_buffers_each_popleft (s : nstate) : option (unit * nstate) :=
+  if forallb truthy_list (st_ports s) then Some (tt, set_ports s (map (@tl _) (st_ports s))) else None.
+(* zip( *vals ) of a list of pairs: the tuple of first components and the tuple of second components *)
+Definition unzip_pairs (l : list (val * md)) : list val * list md := (map fst l, map snd l).
